@@ -272,6 +272,10 @@ class C14(Check):
             if not files:
                 files.append({'rel': 'a.txt', 'kind': 'text', 'mtime_off': -100})
             roots[r] = files
+        if len(pool) % 2 == 0:
+            # round 14: two files sharing an extension mimetypes does not know, one text, one binary (the type of such a
+            # file can only come from its own content). Decided by a value that exists anyway: no extra draw.
+            roots[rnames[0]] = roots[rnames[0]] + [{'rel': 'notes.zzq', 'kind': 'text', 'mtime_off': -41}, {'rel': 'image.ZZQ', 'kind': 'bin', 'mtime_off': -43}]
         if nroots >= 2 and rng.random() < 0.35:
             # an EARLIER root has a directory where a LATER root has a regular file of the same name
             later_r = rng.choice(rnames[1:])
